@@ -4,6 +4,7 @@ import (
 	"bytes"
 	"context"
 	"crypto/sha256"
+	"encoding/base32"
 	"encoding/base64"
 	"encoding/hex"
 	"fmt"
@@ -272,6 +273,64 @@ func c17Check(c C17Case, rec *evid.Rec) error {
 		}
 		err := evid.Guard(where, func() error {
 			switch op.Kind {
+			case "putoverlap":
+				// two streaming puts that overlap in time: open A, open B, write both in alternation, commit A, commit B
+				kb := (op.Key + 1) % len(keys)
+				if kb == op.Key {
+					return nil
+				}
+				type stream struct {
+					w      io.Writer
+					commit func() error
+					rest   []byte
+				}
+				var ss [2]stream
+				for j, ki := range []int{op.Key, kb} {
+					ki := ki
+					data := append([]byte{}, c.Contents[ki%len(c.Contents)]...)
+					if st.cmem != nil {
+						l, lerr := nodes.MkLink(keys[ki])
+						if lerr != nil {
+							return lerr
+						}
+						w, commit, oerr := st.cmem.OpenWrite(linking.LinkContext{})
+						if oerr != nil {
+							return oerr
+						}
+						ss[j] = stream{w: w, commit: func() error { return commit(l) }, rest: data}
+					} else {
+						w, commit, oerr := storage.PutStream(ctx, st.rw)
+						if oerr != nil {
+							return fmt.Errorf("PutStream: %v", oerr)
+						}
+						ss[j] = stream{w: w, commit: func() error { return commit(keys[ki]) }, rest: data}
+					}
+				}
+				for len(ss[0].rest) > 0 || len(ss[1].rest) > 0 {
+					for j := range ss {
+						n := 1 + len(op.Chunk)%5
+						if n > len(ss[j].rest) {
+							n = len(ss[j].rest)
+						}
+						if n > 0 {
+							if _, werr := ss[j].w.Write(ss[j].rest[:n]); werr != nil {
+								return fmt.Errorf("write to stream %d: %v", j, werr)
+							}
+							ss[j].rest = ss[j].rest[n:]
+						}
+					}
+				}
+				for j, ki := range []int{op.Key, kb} {
+					if cerr := ss[j].commit(); cerr == nil {
+						stored[ki] = true
+						distinct[ki] = true
+					} else if c.Store != "fsstore" {
+						return fmt.Errorf("commit of overlapping stream %d failed: %v", j, cerr)
+					} else {
+						rec.Class("fs-put-refused")
+					}
+				}
+				return nil
 			case "put", "putstream", "putvec":
 				buf := append([]byte{}, content...)
 				var perr error
@@ -411,7 +470,7 @@ func c17Check(c C17Case, rec *evid.Rec) error {
 
 var c17Part = evid.Part[C17Case]{
 	Prop: "C17", Name: "kvmap", Quick: 1200, Thorough: 100000,
-	Rule: "history of ≤40 put/put-stream/put-vec/re-put/has/get/get-stream/peek operations (methods and feature-detecting package functions) over a table of keys that each have one content, on memstore, cidlink.Memory, fsstore with defaults and with custom escaping (hex, base64url) × sharding (r12, r122, r133, none); keys = CID binaries and hostile byte strings (NUL, '/', '..', '../../sentinel.txt', '.temp', 300-byte, high bytes, shared shard suffixes, prefixes, and near neighbours of other keys: one more / one changed trailing byte, equal for the first 31..129 bytes and differing after); model map + full scan at the end; for fsstore the tree outside the base directory is compared after every operation and every path handed to the OS (verif hook) must lie under the base; non-trivial = ≥2 distinct keys, a read after a put, and for fsstore a hostile key; distinct by the whole history",
+	Rule: "history of ≤40 put/put-stream/put-vec/re-put/two overlapping streams/has/get/get-stream/peek operations (methods and feature-detecting package functions) over a table of keys that each have one content, on memstore, cidlink.Memory, fsstore with defaults and with custom escaping (hex, base64url) × sharding (r12, r122, r133, none); keys = CID binaries and hostile byte strings (NUL, '/', '..', '../../sentinel.txt', '.temp', 300-byte, high bytes, shared shard suffixes, prefixes, and near neighbours of other keys: the base32 / hex / base64url form of another key, one more / one changed trailing byte, equal for the first 31..129 bytes and differing after); model map + full scan at the end; for fsstore the tree outside the base directory is compared after every operation and every path handed to the OS (verif hook) must lie under the base; non-trivial = ≥2 distinct keys, a read after a put, and for fsstore a hostile key; distinct by the whole history",
 	Gen: func(t *rapid.T) C17Case {
 		c := C17Case{Store: rapid.SampledFrom([]string{"memstore", "cidmemory", "fsstore", "fsstore", "fsstore"}).Draw(t, "store")}
 		if c.Store == "fsstore" && rapid.Bool().Draw(t, "custom") {
@@ -428,7 +487,17 @@ var c17Part = evid.Part[C17Case]{
 				// a near neighbour of an existing key: keys that differ only late (after a long shared
 				// prefix, around power-of-two lengths) or by one trailing byte must not alias
 				base, _ := val.UnTxt(c.Keys[rapid.IntRange(0, len(c.Keys)-1).Draw(t, "base")])
-				switch rapid.IntRange(0, 2).Draw(t, "derive") {
+				switch rapid.IntRange(0, 3).Draw(t, "derive") {
+				case 3:
+					// what an escaping function makes of the other key: a key and its own escaped form are two keys
+					switch rapid.IntRange(0, 2).Draw(t, "escform") {
+					case 0:
+						k = strings.TrimRight(base32.StdEncoding.EncodeToString([]byte(base)), "=")
+					case 1:
+						k = hex.EncodeToString([]byte(base))
+					default:
+						k = base64.RawURLEncoding.EncodeToString([]byte(base))
+					}
 				case 0:
 					k = base + string(rapid.SampledFrom([]byte{'a', 0, '/', 0xff, '='}).Draw(t, "extra"))
 				case 1:
@@ -468,7 +537,7 @@ var c17Part = evid.Part[C17Case]{
 		nops := rapid.IntRange(1, 40).Draw(t, "nops")
 		for i := 0; i < nops; i++ {
 			c.Ops = append(c.Ops, C17Op{
-				Kind:  rapid.SampledFrom([]string{"put", "putstream", "putvec", "has", "get", "getstream", "peek", "get"}).Draw(t, "kind"),
+				Kind:  rapid.SampledFrom([]string{"put", "putstream", "putvec", "putoverlap", "has", "get", "getstream", "peek", "get"}).Draw(t, "kind"),
 				Key:   rapid.IntRange(0, nk-1).Draw(t, "key"),
 				Chunk: rapid.SliceOfN(rapid.Byte(), 0, 4).Draw(t, "chunk"),
 				Via:   rapid.Bool().Draw(t, "via"),
